@@ -1,4 +1,5 @@
 import Cell2v.Lemmas.ApiMap
+import Cell2v.Lemmas.ApiMapExec
 import Cell2v.Gen.C13Registry
 /-!
 C13 — property theorems (API mapping: routes hit exactly handler-shaped
@@ -118,7 +119,7 @@ theorem decodes_into_declared_type (fmtOK : Bool) (es : List Entry) (dec : Decod
     (hcb : h.isRequest = true → ((h.meth.ins[3]?).map (·.cbAssignable)).getD false = true)
     (hshape : h.isRequest = true ∨ hasCb = false) :
     callWithSerialize (build fmtOK es) (some dec) route ctx data hasCb
-      = .invoked h (ctx != .nil) (.val h.argT.id v) := by
+      = .invoked h (ctx != .nil) (.val h.argT.builtId v) := by
   obtain ⟨g, m, e, x, _, _, _, hv, _, hx⟩ := getHandler_build hh
   have hptr := (valid_argT_ptr e.eid hv).1
   have hlen := valid_len hv
@@ -126,29 +127,33 @@ theorem decodes_into_declared_type (fmtOK : Bool) (es : List Entry) (dec : Decod
   have hreq : (mkHandler e.eid x).isRequest = (x.ins.length == 4) := rfl
   have hmeth : (mkHandler e.eid x).meth = x := rfl
   unfold callWithSerialize
-  simp only [getArgType, hh, Option.map_some, hptr, bne_self_eq_false, Bool.false_eq_true, if_false, hdec]
+  simp only [getArgType, hh, Option.map_some, hptr, Kind.hasElem, Bool.not_true, Bool.false_eq_true, if_false, hdec]
   rw [call_eq, hh]
   simp only []
   have hctxG : ∀ c : CtxArg, (c = .nil ∨ c = .ty (mkHandler e.eid x).ctxT.id) →
-      (match c with | .nil => true | .ty id => id == (mkHandler e.eid x).ctxT.id) = true := by
-    intro c hc; rcases hc with rfl | rfl <;> simp
+      (match c with | .nil => true | .ty id => assignableTo id (mkHandler e.eid x).ctxT) = true := by
+    intro c hc; rcases hc with rfl | rfl <;> simp [assignableTo]
   have hctx' := hctxG ctx hctx
   cases hr : (mkHandler e.eid x).isRequest with
   | true =>
     have h4 : x.ins.length = 4 := by simpa [hreq] using hr
     have := hcb hr
-    simp only [if_true, safeCall, typesOK, hmeth, h4]
-    simp
-    exact ⟨hctx', this⟩
+    have hasg : assignableTo (mkHandler e.eid x).argT.builtId (mkHandler e.eid x).argT = true := by simp [assignableTo, hptr]
+    have hty : typesOK (mkHandler e.eid x) ctx (.val (mkHandler e.eid x).argT.builtId v) true = true := by
+      simp only [typesOK, hmeth, h4, Bool.and_eq_true]
+      exact ⟨⟨⟨by simp, hctx'⟩, hasg⟩, by simpa [hmeth] using this⟩
+    simp [safeCall, hty]
   | false =>
     have hcbf : hasCb = false := by rcases hshape with h1 | h1; · rw [hr] at h1; cases h1
                                     · exact h1
     have h3 : x.ins.length = 3 := by
       have : (x.ins.length == 4) = false := by simpa [hreq] using hr
       rw [this] at hlen; simpa using hlen
-    simp only [hcbf, Bool.false_eq_true, if_false, safeCall, typesOK, hmeth, h3]
-    simp
-    exact hctx'
+    have hasg : assignableTo (mkHandler e.eid x).argT.builtId (mkHandler e.eid x).argT = true := by simp [assignableTo, hptr]
+    have hty : typesOK (mkHandler e.eid x) ctx (.val (mkHandler e.eid x).argT.builtId v) false = true := by
+      simp only [typesOK, hmeth, h3, Bool.and_eq_true]
+      exact ⟨⟨⟨by simp, hctx'⟩, hasg⟩, by simp⟩
+    simp [hcbf, safeCall, hty]
 
 /-- **nothing escapes as a panic**: on a built collection, for every serializer,
 route, context, payload, with or without completion function -/
@@ -256,14 +261,14 @@ theorem call_with_cb_completes_once_partial (fmtOK : Bool) (es : List Entry) (se
 
 /-! ### D11 witness -/
 
-def dctx : TyDesc := ⟨.ptr, true, false, [1]⟩
-def dmsg : TyDesc := ⟨.ptr, false, false, [2]⟩
-def dcb : TyDesc := ⟨.func, false, true, [3]⟩
-def drecv : TyDesc := ⟨.ptr, false, false, [0]⟩
+def dctx : TyDesc := ⟨.ptr, true, false, [1], [], none, none⟩
+def dmsg : TyDesc := ⟨.ptr, false, false, [2], [], none, none⟩
+def dcb : TyDesc := ⟨.func, false, true, [3], [], none, none⟩
+def drecv : TyDesc := ⟨.ptr, false, false, [0], [], none, none⟩
 /-- `func (e *E) Join(ctx, msg, cb)` and `func (e *E) Say(ctx, msg)` -/
 def mJoin : Method := ⟨[74], [74], true, false, [drecv, dctx, dmsg, dcb]⟩
 def mSay : Method := ⟨[83], [83], true, false, [drecv, dctx, dmsg]⟩
-def eDemo : Entry := ⟨1, [69], true, [mJoin, mSay], [], none⟩
+def eDemo : Entry := ⟨1, [69], true, [mJoin, mSay], [], none, false⟩
 def decId : Decoder := fun _ d => some d
 def bOk : Beh := ⟨[true], false, false⟩
 
@@ -333,7 +338,7 @@ theorem undecodable_payload_error (fmtOK : Bool) (es : List Entry) (dec : Decode
     callWithSerialize (build fmtOK es) (some dec) route ctx data hasCb = .fwErr := by
   obtain ⟨_, _, e, x, _, _, _, hv, _, hx⟩ := getHandler_build hh
   have hptr : h.argT.kind = .ptr := by rw [hx]; exact (valid_argT_ptr e.eid hv).1
-  simp [callWithSerialize, getArgType, hh, hptr, hdec]
+  simp [callWithSerialize, getArgType, hh, hptr, hdec, Kind.hasElem]
 
 /-- anything `reflect.Value.Call` rejects (context of another type, message of
 another type, a 4th parameter the completion function is not assignable to) is
@@ -365,6 +370,332 @@ theorem call_without_cb_never_completes (col : Collection) (ser : Option Decoder
     completions (callWithSerialize col ser route ctx data false) false b = [] ∧
     completions (call col route ctx arg false) false b = [] := by
   simp [completions, completionsG]
+
+/-! ## executions
+
+The theorems above read completions off a summary (`Outcome` + `completionsG`).  The statements
+below are about EXECUTIONS of the same code written as an event-emitting, possibly panicking
+program (`callWithSerializeX`, Model/ApiMap "execution semantics"): an event list can contain two
+handler runs, two framework completions, a framework completion without an error — so "once" and
+"with an error" are proved, not typed.  The driver prints the observations of the correspondence
+run from these executions. -/
+
+/-- **the summary model is a theorem about executions**: for every collection, (non-panicking)
+serializer, route, context, payload, completion function (nil / plain / the dispatcher's picky closure)
+and handler behaviour, the execution panics iff the summary is `escaped`, runs exactly the handler
+the summary names (once, with that context and argument) and invokes the completion function exactly as
+`completionsG` says -/
+theorem execution_refines_summary (col : Collection) (ser : Option Decoder) (route : Bytes) (ctx : CtxArg)
+    (data : Bytes) (cb : Cb) (b : Beh) :
+    (callWithSerializeX col (ser.map Decoder.lift) route ctx data cb b).panicking
+      = (callWithSerialize col ser route ctx data cb.isSome == .escaped) ∧
+    (callWithSerializeX col (ser.map Decoder.lift) route ctx data cb b).runs
+      = runsOf (callWithSerialize col ser route ctx data cb.isSome) ∧
+    (callWithSerializeX col (ser.map Decoder.lift) route ctx data cb b).comps
+      = completionsG (cbPanicsOf cb b) (callWithSerialize col ser route ctx data cb.isSome) cb.isSome b :=
+  callWithSerializeX_refines col ser route ctx data cb b
+
+/-- **exactly once, as a count of events**: for every list of entries, serializer (or none), route,
+context, payload and disciplined handler, if the route does not name a notify-shaped method (D11) the
+execution invokes the completion function exactly once, runs at most one handler and does not panic -/
+theorem exec_completes_exactly_once_partial (fmtOK : Bool) (es : List Entry) (ser : Option Decoder)
+    (route data : Bytes) (ctx : CtxArg) (b : Beh) (hb : b.disciplined = true)
+    (hn : ¬ NamesNotify (build fmtOK es) route) :
+    (callWithSerializeX (build fmtOK es) (ser.map Decoder.lift) route ctx data (some false) b).comps.length = 1 ∧
+    (callWithSerializeX (build fmtOK es) (ser.map Decoder.lift) route ctx data (some false) b).runs.length ≤ 1 ∧
+    (callWithSerializeX (build fmtOK es) (ser.map Decoder.lift) route ctx data (some false) b).panicking = false := by
+  obtain ⟨r1, r2, r3⟩ := callWithSerializeX_refines (build fmtOK es) ser route ctx data (some false) b
+  refine ⟨?_, ?_, ?_⟩
+  · rw [r3]
+    have := call_with_cb_completes_once_partial fmtOK es ser route data ctx b hb hn
+    simpa [completions, cbPanicsOf] using this
+  · rw [r2]; exact runsOf_length_le _
+  · rw [r1]
+    have := (no_escaping_panic fmtOK es ser route data ctx .nil true).1
+    simpa using this
+
+/-- **every error path is ONE ERROR completion and nothing else**: whenever no handler ran — malformed
+route, unknown group or method, no serializer, undecodable payload, arguments reflect rejects — the
+whole execution is the single event "completion function invoked by the framework with an error", for
+every handler behaviour and both kinds of completion function (D11 excluded) -/
+theorem exec_error_paths_one_error_completion (fmtOK : Bool) (es : List Entry) (ser : Option Decoder)
+    (route data : Bytes) (ctx : CtxArg) (picky : Bool) (b : Beh)
+    (hn : ¬ NamesNotify (build fmtOK es) route)
+    (hnr : (callWithSerializeX (build fmtOK es) (ser.map Decoder.lift) route ctx data (some picky) b).runs = []) :
+    callWithSerializeX (build fmtOK es) (ser.map Decoder.lift) route ctx data (some picky) b
+      = ⟨[.cb false true], false⟩ := by
+  obtain ⟨r1, r2, r3⟩ := callWithSerializeX_refines (build fmtOK es) ser route ctx data (some picky) b
+  have honce := call_with_cb_completes_once_partial fmtOK es ser route data ctx ⟨[true], false, false⟩ (by decide) hn
+  have hesc := (no_escaping_panic fmtOK es ser route data ctx .nil true).1
+  simp only [Option.isSome_some] at r1 r2 r3
+  have hc : (callWithSerializeX (build fmtOK es) (ser.map Decoder.lift) route ctx data (some picky) b).comps = [.f] := by
+    rw [r3]
+    rw [r2] at hnr
+    cases ho : callWithSerialize (build fmtOK es) ser route ctx data true with
+    | fwErr => simp [completionsG]
+    | recovered => simp [completionsG]
+    | nothing => rw [ho] at honce; simp [completions, completionsG] at honce
+    | escaped => exact absurd ho hesc
+    | invoked h cs a => rw [ho] at hnr; simp [runsOf] at hnr
+  obtain ⟨isErr, hev⟩ := evs_of_readings hnr hc
+  have hs := callWithSerializeX_sound (build fmtOK es) (ser.map Decoder.lift) route ctx data (some picky) b
+    (.cb false isErr) (by rw [hev]; simp)
+  have hp : (callWithSerializeX (build fmtOK es) (ser.map Decoder.lift) route ctx data (some picky) b).panicking = false := by
+    rw [r1]; simpa using hesc
+  simp only [Ev.sound] at hs
+  subst hs
+  generalize callWithSerializeX (build fmtOK es) (ser.map Decoder.lift) route ctx data (some picky) b = x at hev hp
+  obtain ⟨evs, pn⟩ := x
+  simp only at hev hp
+  subst hev; subst hp; rfl
+
+/-- **a completion made by the framework always carries an error** — in every execution: any
+collection, any serializer (even a panicking one), any handler behaviour -/
+theorem exec_framework_completions_are_errors (col : Collection) (ser : Option DecoderX) (route : Bytes)
+    (ctx : CtxArg) (data : Bytes) (cb : Cb) (b : Beh) (isErr : Bool)
+    (h : Ev.cb false isErr ∈ (callWithSerializeX col ser route ctx data cb b).evs) : isErr = true :=
+  callWithSerializeX_sound col ser route ctx data cb b _ h
+
+/-- **no execution runs a handler twice** — any collection, serializer, handler behaviour -/
+theorem exec_handler_runs_at_most_once (col : Collection) (ser : Option DecoderX) (route : Bytes)
+    (ctx : CtxArg) (data : Bytes) (cb : Cb) (b : Beh) :
+    (callWithSerializeX col ser route ctx data cb b).runs.length ≤ 1 :=
+  callWithSerializeX_runs_le col ser route ctx data cb b
+
+/-- **nothing escapes as a panic, on executions**: built collection, any serializer that does not
+itself panic, any completion function, any handler behaviour (panicking, completing a picky callback
+with a value it chokes on, …) -/
+theorem exec_no_escaping_panic (fmtOK : Bool) (es : List Entry) (ser : Option DecoderX)
+    (hser : ∀ dec, ser = some dec → ∀ t p, dec t p ≠ .panics)
+    (route data : Bytes) (ctx : CtxArg) (cb : Cb) (b : Beh) :
+    (callWithSerializeX (build fmtOK es) ser route ctx data cb b).panicking = false := by
+  have hl : ser = (ser.map DecoderX.unlift).map Decoder.lift := by
+    cases ser with
+    | none => rfl
+    | some dec => simp [DecoderX.lift_unlift dec (hser dec rfl)]
+  rw [hl, (callWithSerializeX_refines _ _ _ _ _ _ _).1]
+  have := (no_escaping_panic fmtOK es (ser.map DecoderX.unlift) route data ctx .nil cb.isSome).1
+  simpa using this
+
+/-- what the code does when `serializer.Unmarshal` PANICS (a user serializer, or a message type whose own
+`UnmarshalJSON` panics under the JSON serializer): `Unmarshal` is called outside `SafeCall`, the panic
+leaves `CallWithSerialize` and the completion function is never invoked — the hypothesis of
+`exec_no_escaping_panic` cannot be dropped -/
+theorem exec_serializer_panic_escapes (col : Collection) (dec : DecoderX) (route data : Bytes) (ctx : CtxArg)
+    (cb : Cb) (b : Beh) (t : TyDesc) (hg : getArgType col route = some t) (hk : t.kind = .ptr)
+    (hd : dec t.id data = .panics) :
+    callWithSerializeX col (some dec) route ctx data cb b = ⟨[], true⟩ := by
+  simp [callWithSerializeX, hg, hk, hd, Exec.panic, Kind.hasElem]
+
+/-- non-vacuity (executions): a request to `E.Join` is one handler run followed by the handler's own
+completion; an unknown method is the single framework error completion; the D11 route is the empty execution -/
+example :
+    callWithSerializeX (build true [eDemo]) (some decId.lift) [69, 46, 74] (.ty [1]) [7, 7] (some false) bOk
+      = ⟨[.run (mkHandler 1 mJoin) true (.val [2] [7, 7]), .cb true false], false⟩ ∧
+    callWithSerializeX (build true [eDemo]) (some decId.lift) [69, 46, 88] (.ty [1]) [7, 7] (some false) bOk
+      = ⟨[.cb false true], false⟩ ∧
+    callWithSerializeX (build true [eDemo]) (some decId.lift) [69, 46, 83] (.ty [1]) [7, 7] (some false) bOk
+      = ⟨[], false⟩ := by decide
+
+/-- non-vacuity of `exec_serializer_panic_escapes` -/
+example : callWithSerializeX (build true [eDemo]) (some (fun _ _ => .panics)) [69, 46, 74] .nil [] (some false) bOk
+    = ⟨[], true⟩ := by decide
+
+/-! ### a handler that panics (the statement's fourth error case), without the discipline hypothesis -/
+
+/-- **what a panicking request handler's caller sees, exactly**: the handler's own completions (however
+many it made before panicking) followed by ONE framework error completion -/
+theorem panicking_handler_completions (h : Handler) (cs : Bool) (a : ArgV) (hreq : h.isRequest = true) (b : Beh)
+    (hp : b.panics = true) :
+    completions (.invoked h cs a) true b = b.comps.map Comp.h ++ [.f] := by
+  simp [completions, completionsG, hreq, playComps_plain, hp]
+
+/-- … so "a handler that panics → the completion function is completed exactly once" holds iff the
+handler had not completed before it panicked -/
+theorem panicking_handler_completes_once_iff (h : Handler) (cs : Bool) (a : ArgV) (hreq : h.isRequest = true) (b : Beh)
+    (hp : b.panics = true) :
+    (completions (.invoked h cs a) true b).length = 1 ↔ b.comps = [] := by
+  rw [panicking_handler_completions h cs a hreq b hp]
+  cases b.comps <;> simp
+
+/-- THE FULL STATEMENT of the clause "a handler that panics … completes it exactly once" (no discipline
+hypothesis: ANY handler that panics).  FALSE for the code as it is: a handler that completes and then
+panics (nil dereference after `cb(nil, ret)`) is completed a second time by `SafeCall` with "panic in rpc";
+behind the service dispatcher the requester receives two `ServiceResponse`s for one ReqId. -/
+def PanickingHandlerCompletesOnce : Prop :=
+  ∀ (fmtOK : Bool) (es : List Entry) (ser : Option Decoder) (route data : Bytes) (ctx : CtxArg) (b : Beh),
+    b.panics = true → ¬ NamesNotify (build fmtOK es) route →
+    (callWithSerializeX (build fmtOK es) (ser.map Decoder.lift) route ctx data (some false) b).comps.length = 1
+
+theorem panicking_handler_completes_once_full_fails : ¬ PanickingHandlerCompletesOnce := by
+  intro h
+  have hn : ¬ NamesNotify (build true [eDemo]) [69, 46, 74] := by
+    rintro ⟨h, hh, hr⟩
+    have : getHandler (build true [eDemo]) [69, 46, 74] = some (mkHandler 1 mJoin) := by decide
+    rw [this] at hh; cases hh; revert hr; decide
+  have := h true [eDemo] (some decId) [69, 46, 74] [7] (.ty [1]) ⟨[true], true, false⟩ rfl hn
+  revert this
+  decide
+
+/-- the same through the dispatcher: one request, two answers (a success, then an error) -/
+theorem dispatch_complete_then_panic_answers_twice :
+    (dispatchX ([[eDemo]].map (build true)) decId.lift [1] [69, 46, 74] [] false true ⟨[true], true, false⟩).2.comps
+      = [.h true, .f] := by decide
+
+/-! ### exposed but not callable -/
+
+/-- the statement's wording read strictly: the optional 4th parameter is a COMPLETION FUNCTION — a
+parameter the framework's completion function (`HandlerCBFunc`) can be passed to -/
+def HandlerShapedStrict (m : Method) : Prop :=
+  m.exported = true ∧
+  ∃ recv ctx msg, ctx.kind = .ptr ∧ ctx.implCtx = true ∧ msg.kind = .ptr ∧
+    (m.ins = [recv, ctx, msg] ∨ ∃ cb, cb.kind = .func ∧ cb.cbAssignable = true ∧ m.ins = [recv, ctx, msg, cb])
+
+/-- FULL statement "exposes exactly the handler-shaped methods" under the strict reading.  FALSE: -/
+def ShapePredicateExactStrict : Prop := ∀ m : Method, isValidMethod m = true ↔ HandlerShapedStrict m
+
+/-- `func (e *E) Odd(ctx, msg, cb func(int))` -/
+def mOdd : Method := ⟨[79], [79], true, false, [drecv, dctx, dmsg, ⟨.func, false, false, [4], [], none, none⟩]⟩
+
+/-- `isValidRequest` only asks `Kind() == Func` of the 4th parameter: a method whose 4th parameter is
+`func(int)`, `func()` or a func with a result is exposed although no call can ever reach it -/
+theorem shape_predicate_strict_fails : ¬ ShapePredicateExactStrict := by
+  intro h
+  have h1 : isValidMethod mOdd = true := by decide
+  obtain ⟨_, recv, ctx, msg, _, _, _, h3 | ⟨cb, _, hcb, h4⟩⟩ := (h mOdd).1 h1
+  · simp [mOdd] at h3
+  · simp only [mOdd, List.cons.injEq, and_true] at h4
+    obtain ⟨_, _, _, rfl⟩ := h4
+    simp at hcb
+
+/-- **an exposed route can be invoked at all iff** it is notify-shaped or its 4th parameter accepts the
+completion function — for every built collection and every route in its table.  (When it cannot, every
+call is recovered by `SafeCall` into one error completion: `reflect_mismatch_recovered`.) -/
+theorem exposed_route_callable_iff (fmtOK : Bool) (es : List Entry) (route : Bytes) (h : Handler)
+    (hh : getHandler (build fmtOK es) route = some h) :
+    (∃ ctx arg hasCb cs a, call (build fmtOK es) route ctx arg hasCb = .invoked h cs a) ↔
+      (h.isRequest = false ∨ ((h.meth.ins[3]?).map (·.cbAssignable)).getD false = true) := by
+  obtain ⟨g, m, e, x, _, _, _, hv, _, hx⟩ := getHandler_build hh
+  have hlen := valid_len hv
+  subst hx
+  have hreq : (mkHandler e.eid x).isRequest = (x.ins.length == 4) := rfl
+  have hmeth : (mkHandler e.eid x).meth = x := rfl
+  constructor
+  · rintro ⟨ctx, arg, hasCb, cs, a, hc⟩
+    rw [call_eq, hh] at hc
+    simp only at hc
+    cases hr : (mkHandler e.eid x).isRequest with
+    | false => exact Or.inl rfl
+    | true =>
+      right
+      simp only [hr, if_true, safeCall] at hc
+      split at hc
+      · next ht =>
+        simp only [typesOK, Bool.and_eq_true, Bool.not_true, Bool.false_or] at ht
+        exact ht.2
+      · cases hc
+  · intro hcase
+    refine ⟨.nil, .nil, false, false, .nil, ?_⟩
+    rw [call_eq, hh]
+    simp only
+    cases hr : (mkHandler e.eid x).isRequest with
+    | true =>
+      have h4 : x.ins.length = 4 := by simpa [hreq] using hr
+      rcases hcase with h0 | h0
+      · rw [hr] at h0; cases h0
+      · have hty : typesOK (mkHandler e.eid x) .nil .nil true = true := by
+          have h0' : (Option.map (fun t => t.cbAssignable) x.ins[3]?).getD false = true := by simpa [hmeth] using h0
+          simp only [typesOK, hmeth, h4, Bool.and_eq_true]
+          exact ⟨⟨⟨by simp, by simp⟩, by simp⟩, by simpa using h0'⟩
+        simp [safeCall, hty]
+    | false =>
+      have h3 : x.ins.length = 3 := by
+        have : (x.ins.length == 4) = false := by simpa [hreq] using hr
+        rw [this] at hlen; simpa using hlen
+      have hty : typesOK (mkHandler e.eid x) .nil .nil false = true := by
+        simp [typesOK, hmeth, h3]
+      simp [safeCall, hty]
+
+/-- non-vacuity: `E.Odd` is in the table, and no context, argument or completion function invokes it -/
+example : getHandler (build true [⟨1, [69], true, [mOdd], [], none, false⟩]) [69, 46, 79] = some (mkHandler 1 mOdd) ∧
+    ¬ (mkHandler 1 mOdd).isRequest = false ∧ ((mOdd.ins[3]?).map (·.cbAssignable)).getD false = false := by decide
+
+/-! ### assignability (a caller-supplied argument need not have the declared type itself) -/
+
+/-- `type PM *M`; `func (e *E) Named(ctx, m PM, cb)` -/
+def dpm : TyDesc := ⟨.ptr, false, false, [80], [], some [2], none⟩
+def mNamed : Method := ⟨[78], [78], true, false, [drecv, dctx, dpm, dcb]⟩
+
+/-- a message parameter of a NAMED pointer type: `CallWithSerialize` builds the unnamed `*M`
+(`reflect.New(argType.Elem())`), which `reflect.Call` accepts; and `Collection.Call` with a caller-supplied `*M`
+invokes the handler too (the earlier model equated assignability with identity and said "recovered") -/
+theorem named_pointer_parameter_invoked :
+    callWithSerialize (build true [⟨1, [69], true, [mNamed], [], none, false⟩]) (some decId) [69, 46, 78] .nil [7] true
+      = .invoked (mkHandler 1 mNamed) false (.val [2] [7]) ∧
+    call (build true [⟨1, [69], true, [mNamed], [], none, false⟩]) [69, 46, 78] .nil (.val [2] [9]) true
+      = .invoked (mkHandler 1 mNamed) false (.val [2] [9]) ∧
+    call (build true [⟨1, [69], true, [mNamed], [], none, false⟩]) [69, 46, 78] .nil (.val [3] [9]) true = .recovered := by
+  decide
+
+/-! ## registration: `Build` itself, any formater, nil entries -/
+
+/-- **`Build` does not panic and builds the table of `build`** — default formater or none, any entries that are not nil -/
+theorem build_does_not_panic (fmtOK : Bool) (es : List Entry) (hn : ∀ e ∈ es, e.isNil = false) :
+    buildX (Formater.ofBool fmtOK) es [] = (build fmtOK es, false) :=
+  buildX_default fmtOK es hn []
+
+/-- what the code does with a NIL entry (nil interface or typed nil pointer passed to `Register`):
+`reflect.Indirect(receiver).Type()` panics and `Build` (and `Registry.Build`) with it — unless a group name is
+configured and already defined, which returns "service already defined" first.  Whatever the formater -/
+theorem build_nil_entry_panics (fmt : Formater) (col : Collection) (e : Entry) (he : e.isNil = true) :
+    newServiceX fmt col e = (if e.group ≠ [] ∧ (findC col e.group).isSome then some col else none) := by
+  unfold newServiceX
+  by_cases hg : e.group = []
+  · simp [he, hg]
+  · have hc : containerName e = e.group := by simp [containerName, hg]
+    simp only [he, hg, Bool.true_and, decide_false, Bool.false_eq_true, if_false, hc, ne_eq, not_false_eq_true, true_and]
+    cases findC col e.group with
+    | some c => simp
+    | none => simp [extractHandlerX, he]
+
+/-- non-vacuity: a nil entry after a good one: the good one is in the table, `Build` panicked -/
+example : buildX (Formater.ofBool true) [eDemo, ⟨2, [], true, [], [], none, true⟩] [] = (build true [eDemo], true) := by decide
+
+/-- **exactly when a call can escape**: for EVERY collection (whatever formater built it), `CallWithSerialize`
+panics outside `SafeCall` iff there is a serializer and the route names a handler whose message type has no
+`Elem()` — the guard is the formater's "message is a pointer" check, not a check in `CallWithSerialize` -/
+theorem escapes_iff_message_type_has_no_elem (col : Collection) (ser : Option Decoder) (route data : Bytes)
+    (ctx : CtxArg) (hasCb : Bool) :
+    callWithSerialize col ser route ctx data hasCb = .escaped ↔
+      ser.isSome = true ∧ ∃ t, getArgType col route = some t ∧ t.kind.hasElem = false := by
+  unfold callWithSerialize
+  cases ser with
+  | none => simp
+  | some dec =>
+    cases hg : getArgType col route with
+    | none => simp
+    | some t =>
+      cases hk : t.kind.hasElem with
+      | false => simp [hk]
+      | true =>
+        cases hd : dec t.id data with
+        | none => simp [hk, hd]
+        | some v =>
+          have := call_ne_escaped col route ctx (.val t.builtId v) hasCb
+          simp [this, hk, hd]
+
+/-- `func (e *E) ByValue(ctx, msg M)` (message by value) and `func (e *E) Two(ctx)` -/
+def mByValue : Method := ⟨[66], [66], true, false, [drecv, dctx, ⟨.struct, false, false, [5], [], none, none⟩]⟩
+def mTwo : Method := ⟨[84], [84], true, false, [drecv, dctx]⟩
+
+/-- a formater that accepts everything (`SetFormater` takes any `IAPIFormatter`): a by-value message type is
+exposed and every `CallWithSerialize` on it escapes as a panic; a two-parameter method makes `Build` itself panic.
+`no_escaping_panic` is about the default formater -/
+theorem custom_formater_can_escape :
+    (buildX (some fun _ => true) [⟨1, [69], true, [mByValue], [], none, false⟩] []).2 = false ∧
+    callWithSerialize (buildX (some fun _ => true) [⟨1, [69], true, [mByValue], [], none, false⟩] []).1
+      (some decId) [69, 46, 66] .nil [] true = .escaped ∧
+    (buildX (some fun _ => true) [⟨1, [69], true, [mTwo], [], none, false⟩] []).2 = true := by decide
 
 /-! ## service dispatcher -/
 
@@ -470,6 +801,116 @@ theorem dispatch_request_answered_once_full_fails : ¬ DispatchRequestAnsweredOn
 /-- non-vacuity: a request to `E.Join` through the dispatcher is answered once, by the handler -/
 example : responses (dispatch ([[eDemo]].map (build true)) decId [1] [69, 46, 74] [] false) false bOk = [.h true] := by
   decide
+
+/-! ### the dispatcher and `Service.handleRequest` as executions -/
+
+/-- the dispatcher's summary (`dispatch` + `responses`) is what its executions do (request with a sender) -/
+theorem dispatch_execution_refines_summary (cols : List Collection) (dec : Decoder) (rc route data : Bytes)
+    (isNotify : Bool) (b : Beh) :
+    (dispatchX cols dec.lift rc route data isNotify true b).1 = (dispatch cols dec rc route data isNotify).1 ∧
+    (dispatchX cols dec.lift rc route data isNotify true b).2.comps
+      = responses (dispatch cols dec rc route data isNotify) isNotify b ∧
+    (dispatchX cols dec.lift rc route data isNotify true b).2.runs
+      = (match (dispatch cols dec rc route data isNotify).2 with | some o => runsOf o | none => []) := by
+  obtain ⟨h1, _, h3, h4⟩ := dispatchX_refines cols dec rc route data isNotify b
+  exact ⟨h1, h3, h4⟩
+
+/-- **a request is answered by exactly one `ServiceResponse`**, as a count of the responses sent in the execution -/
+theorem exec_dispatch_request_answered_once_partial (fmtOK : Bool) (ess : List (List Entry)) (dec : Decoder)
+    (rc route data : Bytes) (b : Beh) (hb : b.disciplined = true)
+    (hn : ∀ c, dispatchTarget (ess.map (build fmtOK)) route = some c → ¬ NamesNotify c route) :
+    (dispatchX (ess.map (build fmtOK)) dec.lift rc route data false true b).2.comps.length = 1 := by
+  rw [(dispatchX_refines _ _ _ _ _ _ _).2.2.1]
+  exact dispatch_request_answered_once_partial fmtOK ess dec rc route data b hb hn
+
+/-- **a request without a sender is never answered** (`ResponseEx` returns early): whatever the route,
+payload, collections, legacy receiver and handler behaviour, no response is sent — the exactly-once
+statements are about requests that carry a sender -/
+theorem request_without_sender_never_answered (disp : Option (List Collection)) (dec : DecoderX) (rc route data : Bytes)
+    (isNotify : Bool) (legacy : Legacy) (b : Beh) :
+    (handleRequestX disp dec rc route data isNotify false legacy b).1.comps = [] := by
+  have hl : (legacyX legacy isNotify false).1 = .ret := by cases legacy <;> simp [legacyX]
+  unfold handleRequestX
+  split
+  · next x heq =>
+    split at heq
+    · cases disp with
+      | none => simp at heq
+      | some cols =>
+        simp only [Option.map_some, Option.some.injEq] at heq
+        unfold dispatchX at heq
+        split at heq
+        · cases heq
+        · simp only [Bool.false_eq_true, if_false, Prod.mk.injEq, true_and] at heq
+          rw [← heq]; exact Exec.unsent_comps _
+    · cases heq
+  · next x heq =>
+    have hx : x = .ret := by
+      split at heq
+      · cases disp with
+        | none => simp at heq
+        | some cols =>
+          simp only [Option.map_some, Option.some.injEq] at heq
+          unfold dispatchX at heq
+          split at heq
+          · simp only [Bool.not_false, Bool.or_true, if_true, Prod.mk.injEq, true_and] at heq; exact heq.symm
+          · cases heq
+      · cases heq
+    subst hx
+    simp [hl, Exec.comps, Exec.andThen, Exec.ret]
+  · simp [hl, Exec.comps, Exec.ret]
+
+/-- **unknown route at the service level**: `Dispatch` answers "no method" and returns false, and
+`handleRequest` then FALLS THROUGH to the legacy receiver.  With no receiver or the default (silent) one the
+request is answered exactly once, with an error, and nothing runs -/
+theorem handle_request_unknown_route (cols : List Collection) (dec : DecoderX) (rc route data : Bytes)
+    (legacy : Legacy) (b : Beh) (hr : route ≠ []) (h : ∀ c ∈ cols, hasMethod c route = false)
+    (hl : legacy ≠ .answers) :
+    (handleRequestX (some cols) dec rc route data false true legacy b).1 = ⟨[.cb false true], false⟩ := by
+  have ht : dispatchTarget cols route = none := by
+    unfold dispatchTarget
+    exact List.find?_eq_none.2 (fun c hc => by simp [h c hc])
+  cases legacy with
+  | answers => exact absurd rfl hl
+  | absent => simp [handleRequestX, hr, dispatchX, ht, legacyX, Exec.andThen, Exec.emit, Exec.ret]
+  | silent => simp [handleRequestX, hr, dispatchX, ht, legacyX, Exec.andThen, Exec.emit, Exec.ret]
+
+/-- FULL statement at the service level: a request (with a sender) whose route no collection has is answered
+exactly once — for EVERY legacy receiver.  FALSE: -/
+def UnknownRouteAnsweredOnce : Prop :=
+  ∀ (cols : List Collection) (dec : DecoderX) (rc route data : Bytes) (legacy : Legacy) (b : Beh),
+    route ≠ [] → (∀ c ∈ cols, hasMethod c route = false) →
+    (handleRequestX (some cols) dec rc route data false true legacy b).1.comps.length = 1
+
+/-- … a service that has an API dispatcher AND overrides `ReceiveRequest` to answer requests answers an
+unknown route TWICE: "no method" from `Dispatch`, then the legacy receiver's own answer -/
+theorem unknown_route_answered_once_full_fails : ¬ UnknownRouteAnsweredOnce := by
+  intro h
+  have := h [] (fun _ _ => .err) [1] [120] [] .answers bOk (by decide) (by simp)
+  revert this
+  decide
+
+theorem handle_request_unknown_route_legacy_answers_twice (cols : List Collection) (dec : DecoderX)
+    (rc route data : Bytes) (b : Beh) (hr : route ≠ []) (h : ∀ c ∈ cols, hasMethod c route = false) :
+    handleRequestX (some cols) dec rc route data false true .answers b = (⟨[.cb false true, .cb true false], false⟩, true) := by
+  have ht : dispatchTarget cols route = none := by
+    unfold dispatchTarget
+    exact List.find?_eq_none.2 (fun c hc => by simp [h c hc])
+  simp [handleRequestX, hr, dispatchX, ht, legacyX, Exec.andThen, Exec.emit]
+
+/-- a route some collection has is the dispatcher's business alone: `handleRequest` is `Dispatch`'s execution
+and the legacy receiver is not consulted -/
+theorem handle_request_routed_is_dispatch (cols : List Collection) (dec : DecoderX) (rc route data : Bytes)
+    (isNotify hasSender : Bool) (legacy : Legacy) (b : Beh) (hr : route ≠ []) (c : Collection)
+    (h : dispatchTarget cols route = some c) :
+    handleRequestX (some cols) dec rc route data isNotify hasSender legacy b
+      = ((dispatchX cols dec rc route data isNotify hasSender b).2, false) := by
+  simp [handleRequestX, hr, dispatchX, h]
+
+/-- non-vacuity: a routed request to `E.Join` through `handleRequest` with an answering legacy receiver:
+one run, one answer (the handler's), legacy not consulted -/
+example : handleRequestX (some ([[eDemo]].map (build true))) decId.lift [1] [69, 46, 74] [7] false true .answers bOk
+    = (⟨[.run (mkHandler 1 mJoin) true (.val [2] [7]), .cb true false], false⟩, false) := by decide
 
 /-! ## registry under concurrency -/
 
